@@ -38,34 +38,51 @@ pub struct Net {
     pub sent_hist: HashMap<(Addr, Addr), BTreeMap<i32, Vec<u8>>>,
     /// number of input bytes per frame each sender uses towards each receiver
     pub frame_bytes: HashMap<(Addr, Addr), usize>,
-    nonce_ids: HashMap<u32, u32>,
-    magic_ids: HashMap<u16, u32>,
+    /// handshake nonces renamed per requesting link, in order of first appearance
+    nonce_ids: HashMap<(Addr, Addr), HashMap<u32, u32>>,
+    /// magic number registered for each directed link (first packet sent on it)
+    link_magic: HashMap<(Addr, Addr), u16>,
     /// peers that no longer exist: packets to them vanish
     pub dead: Vec<Addr>,
     pub total_sent: u64,
 }
 
 impl Net {
-    pub fn nonce_id(&mut self, n: u32) -> u32 {
-        let next = self.nonce_ids.len() as u32 + 1;
-        *self.nonce_ids.entry(n).or_insert(next)
-    }
-    pub fn magic_id(&mut self, m: u16) -> u32 {
-        if m == 0 {
+    /// id of a nonce issued on the link `req_from -> req_to` (0 = never issued there)
+    pub fn nonce_id(&mut self, req_from: Addr, req_to: Addr, n: u32, issue: bool) -> u32 {
+        let t = self.nonce_ids.entry((req_from, req_to)).or_default();
+        if let Some(id) = t.get(&n) {
+            return *id;
+        }
+        if !issue {
             return 0;
         }
-        let next = self.magic_ids.len() as u32 + 1;
-        *self.magic_ids.entry(m).or_insert(next)
+        let next = t.len() as u32 + 1;
+        t.insert(n, next);
+        next
+    }
+    /// 1 if the packet carries the magic number of the sending endpoint of this link
+    pub fn magic_id(&mut self, from: Addr, to: Addr, m: u16) -> u32 {
+        let reg = *self.link_magic.entry((from, to)).or_insert(m);
+        if reg == m {
+            1
+        } else {
+            0
+        }
     }
 
     /// Abstract form of a message sent from `from` to `to`:
     /// `[kind, magic_id, ...]`
     pub fn abstract_msg(&mut self, from: Addr, to: Addr, msg: &Message) -> (Value, bool) {
         let (magic, d) = describe_message(msg);
-        let mid = self.magic_id(magic);
+        let mid = self.magic_id(from, to, magic);
         match d {
-            MsgDesc::SyncRequest { nonce } => (json!(["SRq", mid, self.nonce_id(nonce)]), false),
-            MsgDesc::SyncReply { nonce } => (json!(["SRp", mid, self.nonce_id(nonce)]), false),
+            MsgDesc::SyncRequest { nonce } => {
+                (json!(["SRq", mid, self.nonce_id(from, to, nonce, true)]), false)
+            }
+            MsgDesc::SyncReply { nonce } => {
+                (json!(["SRp", mid, self.nonce_id(to, from, nonce, false)]), false)
+            }
             MsgDesc::InputAck { ack_frame } => (json!(["Ack", mid, ack_frame]), false),
             MsgDesc::QualityReport {
                 frame_advantage,
